@@ -236,6 +236,59 @@ impl Interp {
                     _ => false,
                 }
             }
+            ["bulkrec", k, first, count, nm] => {
+                // `count` calls of add_gene / add_omim_disease / add_orpha_disease, ids first..first+count
+                let (Ok(first), Ok(count), Some(nm)) = (first.parse::<u32>(), count.parse::<u32>(), unname(nm)) else {
+                    return false;
+                };
+                match &mut self.b {
+                    B::Conn(b) => {
+                        for id in first..first + count {
+                            match *k {
+                                "g" => b.add_gene(&nm, GeneId::from(id)),
+                                "o" => {
+                                    b.add_omim_disease(&nm, OmimDiseaseId::from(id));
+                                }
+                                "r" => {
+                                    b.add_orpha_disease(&nm, OrphaDiseaseId::from(id));
+                                }
+                                _ => return false,
+                            }
+                        }
+                        true
+                    }
+                    _ => false,
+                }
+            }
+            ["bulkann", k, first, count, nm, t] => {
+                // `count` calls of annotate_* with the ids first+count-1 down to first and one term; stops at the first error
+                let (Ok(first), Ok(count), Some(nm), Ok(t)) =
+                    (first.parse::<u32>(), count.parse::<u32>(), unname(nm), t.parse::<u32>())
+                else {
+                    return false;
+                };
+                let t = HpoTermId::from(t);
+                match &mut self.b {
+                    B::Conn(b) => {
+                        let mut ok = true;
+                        for id in (first..first + count).rev() {
+                            let r = match *k {
+                                "g" => b.annotate_gene(GeneId::from(id), &nm, t),
+                                "o" => b.annotate_omim_disease(OmimDiseaseId::from(id), &nm, t),
+                                "r" => b.annotate_orpha_disease(OrphaDiseaseId::from(id), &nm, t),
+                                _ => return false,
+                            };
+                            if r.is_err() {
+                                ok = false;
+                                break;
+                            }
+                        }
+                        out.push(if ok { "r ok" } else { "r err" }.to_string());
+                        true
+                    }
+                    _ => false,
+                }
+            }
             ["ann", k, id, nm, t] => {
                 let (Ok(id), Some(nm), Ok(t)) = (id.parse::<u32>(), unname(nm), t.parse::<u32>()) else {
                     return false;
@@ -314,6 +367,16 @@ impl Interp {
             ["dump", slot] => {
                 match slot.parse::<u32>().ok().and_then(|s| self.slots.get(&s)) {
                     Some(o) => out.append(&mut dump(o)),
+                    None => out.push("noslot".to_string()),
+                }
+                true
+            }
+            ["tdump", slot] => {
+                // the dump without the per-record lines (ontologies with tens of thousands of records)
+                match slot.parse::<u32>().ok().and_then(|s| self.slots.get(&s)) {
+                    Some(o) => out.extend(
+                        dump(o).into_iter().filter(|l| !(l.starts_with("G ") || l.starts_with("O ") || l.starts_with("R ") || l.starts_with("WALK "))),
+                    ),
                     None => out.push("noslot".to_string()),
                 }
                 true
